@@ -94,8 +94,9 @@ Happy(o, x) ==
 
 AllActors(o) == { o.actors[k] : k \in 1..Len(o.actors) }
 
-StrayOk(str) == \* "Kind:res" with res = ok means the stray command was accepted
-  LET n == Len(str) IN n >= 3 /\ SubSeq(str, n - 2, n) = ":ok"
+StrayOk(str) == \* "Kind:res" with res = ok means the stray command was accepted (a premature run request at the
+                \* leader, "RunEarly", is valid by the time it is handled and may be accepted; the end-of-run rules apply)
+  LET n == Len(str) IN n >= 3 /\ SubSeq(str, n - 2, n) = ":ok" /\ ~(n >= 8 /\ SubSeq(str, 1, 8) = "RunEarly")
 
 EndViol(o, en) ==
   (IF cur.tag.expect = "happy"
